@@ -323,6 +323,9 @@ def check(ctx):
               "a payload or field type that is referenced but not declared does not resolve inside types.ts")
     from c07 import check_closure_before_insert
     check_closure_before_insert(P, r4)
+    # a serde type the tool fails to recognise is referenced but never declared (rule shared with C07-D5)
+    from c07 import check_serde_filter
+    check_serde_filter(S, P, r4)
     for v in r4.violations:
         v.rule = r4.id
     r4.require_floor(2, "insertions into the declared set")
@@ -407,13 +410,19 @@ def lit_text(e):
     return None
 
 
+ctxvars = {"context"}   # variables initialised from tera::Context::new() (collected while walking); the conventional name is the seed
+
+
 def collect_renders(fn, stmts, inherited, out):
     """(fn, template name, keys inserted into the context in scope) for each render call; block scoped"""
     keys = dict(inherited)
     for st in stmts:
+        if st.get("k") == "let" and st.get("init") is not None and re.search(r"(^|::)Context::(new|default)\(", expr_text(st["init"])):
+            from srclib import pat_bindings as _pb
+            ctxvars.update(_pb(st["pat"]))
         for e in stmt_exprs(st):
             for x in walk_shallow(e):
-                if x.get("k") == "mcall" and x["method"] == "insert" and expr_text(x["recv"]) == "context" and x["args"] and lit_str(x["args"][0]):
+                if x.get("k") == "mcall" and x["method"] == "insert" and expr_text(x["recv"]) in ctxvars and x["args"] and lit_str(x["args"][0]):
                     keys[lit_str(x["args"][0])] = expr_text(x["args"][1]) if len(x["args"]) > 1 else ""
                 if x.get("k") == "mcall" and x["method"] == "render" and x["args"] and lit_str(x["args"][0]):
                     out.append((fn, lit_str(x["args"][0]), dict(keys)))
